@@ -95,6 +95,7 @@ package core
 //@ func (*initFlowSynchronizationImpl).Clear
 //@   modifies all(gateImpl.canceled), all(gateImpl.err), all(gateImpl.arrived)
 //@   ensures [all-gates] gateCleared(s.externalAgentsRegisteredGate) && gateCleared(s.runtimeReadyGate) && gateCleared(s.agentReadyGate) && gateCleared(s.runtimeRestoreReadyGate)
+//@   ensures [only-its-own-gates] forall g *gateImpl :: g != gateOf(s.externalAgentsRegisteredGate) && g != gateOf(s.runtimeReadyGate) && g != gateOf(s.agentReadyGate) && g != gateOf(s.runtimeRestoreReadyGate) ==> g.canceled == old(g.canceled) && g.arrived == old(g.arrived) && g.err == old(g.err)
 
 //@ func (*invokeFlowSynchronizationImpl).CancelWithError
 //@   modifies all(gateImpl.canceled), all(gateImpl.err)
@@ -103,6 +104,7 @@ package core
 //@ func (*invokeFlowSynchronizationImpl).Clear
 //@   modifies all(gateImpl.canceled), all(gateImpl.err), all(gateImpl.arrived)
 //@   ensures [all-gates] gateCleared(s.runtimeResponseGate) && gateCleared(s.runtimeReadyGate) && gateCleared(s.agentReadyGate)
+//@   ensures [only-its-own-gates] forall g *gateImpl :: g != gateOf(s.runtimeResponseGate) && g != gateOf(s.runtimeReadyGate) && g != gateOf(s.agentReadyGate) ==> g.canceled == old(g.canceled) && g.arrived == old(g.arrived) && g.err == old(g.err)
 
 //@ func (*invokeFlowSynchronizationImpl).InitializeBarriers
 //@   modifies all(gateImpl.arrived)
